@@ -978,6 +978,54 @@ def configs(tier):
     return c1, c2
 
 
+def array_dtype_item(spec):
+    """concrete part: the array entry point Spline1D.eval(x) returns what the scalar entry point returns point by point, whatever
+    the type of the point array (break points handed over as an integer array) and of the coefficients (the constructor offers
+    dtype=complex).  The scalar entry point itself is decided against the oracle by the exact items."""
+    degree, periodic, path, n = spec
+    res = H.worker_result()
+    m = numenv.mods()
+    numenv.disable()
+    try:
+        spl = m['spl']
+        kn = spl.make_knots(np.arange(0.0, n + 1.0), degree, periodic)
+        b = spl.BSplines(kn, degree, periodic, path == 'cu')
+        rng = np.random.RandomState(11)
+        nb = len(np.zeros(b.ncells + b.degree))
+        cr = rng.rand(nb) * 2 - 1
+        if periodic:
+            cr[b.ncells:] = cr[:b.degree]
+        xi = np.arange(0, n + 1)                         # integer-typed array of all break points, both ends included
+        xf = xi.astype(float) * 0.5 + 0.25 * (n % 2)          # float points inside the domain
+        xf = xf[(xf >= 0) & (xf <= n)]
+        for label, dtype, coeffs, pts in (('integer-typed point array', float, cr, xi), ('float point array', float, cr, xf),
+                                          ('complex coefficients, float point array', np.complex128, cr * (1 + 2j) + 0.5j, xf)):
+            for der in (0, 1):
+                res['obligations'] += 1
+                sp = spl.Spline1D(b, dtype)
+                sp.coeffs[:] = coeffs
+                want = np.array([sp.eval(float(x), der) for x in pts])
+                import warnings
+                with warnings.catch_warnings():
+                    warnings.simplefilter('ignore')
+                    got = np.asarray(sp.eval(pts, der))
+                dev = float(np.max(np.abs(got.astype(complex) - want.astype(complex)))) if got.shape == want.shape else float('inf')
+                if not dev <= 1e-12 * max(1.0, float(np.max(np.abs(want)))):
+                    res['violations'].append(('entrypoint:array_dtype', 'Spline1D.eval on an array (%s, derivative %d, degree %d %s %s): differs from the scalar entry point by %.3g at the same points (array result dtype %s; e.g. %s vs %s)' % (
+                        label, der, degree, 'periodic' if periodic else 'clamped', path, dev, got.dtype, got[:3], want[:3]),
+                        dict(kind='array_dtype', spec=[str(x) for x in spec], case=label, der=der)))
+                else:
+                    res['discharged'] += 1
+                    res['nontrivial'].append('array_dtype|%r|%s|%d' % (spec, label, der))
+    except Exception as e:
+        res['obligations'] += 1
+        res['violations'].append(('entrypoint:array_dtype', '%s: %s %r' % (type(e).__name__, str(e)[:150], spec), dict(kind='array_dtype', spec=[str(x) for x in spec])))
+    finally:
+        numenv.enable()
+        numenv.disable()
+    return res
+
+
 def main():
     run = H.Run(PID, 'proof')
     m = numenv.mods()
@@ -1011,6 +1059,8 @@ def main():
             continue
         sub += r.get('sub_rounding', 0)
         run.merge(r)
+    for spec_ in [(3, False, 'cu', 6), (3, True, 'nu', 5), (2, False, 'nu', 4), (1, False, 'nu', 3), (5, True, 'nu', 7), (3, True, 'cu', 4)]:
+        run.merge(array_dtype_item(spec_))
     for r in H.pmap(work_2d, c2, run.args.jobs):
         sub += r.get('sub_rounding', 0)
         run.merge(r)
